@@ -263,12 +263,25 @@ Proof.
     split; [exact I|]. split; [exact H1|]. split; [apply same_but_refl|exact H2].
   - destruct (try_cache_false _ _ _ _ _ _ MT0 eq_refl T1) as [MT1 Nil1].
     destruct (try_cache false w upsdb s nf ps1) as [ps2 [|]] eqn:T2.
-    + inversion E. subst w' ps. clear E. destruct (try_cache_true _ _ _ _ _ _ I MT1 Nil1 T2) as [[H1 [H1u H1m]] H2].
+    + destruct (try_cache_true _ _ _ _ _ _ I MT1 Nil1 T2) as [[H1 [H1u H1m]] H2].
       rewrite owner_upsdb in H1u.
       destruct (load_user_tags_ok (w_db w) (w_uc w) utd s ps2 H1 H1u) as [L1 [L2 [L3 L4]]].
-      split; [exact I|]. split; [|split; [apply same_but_refl|]].
-      * split; [exact L1|]. split; [exact L2|]. rewrite L3. exact H1m.
-      * intros f Hf N. apply (H2 f Hf). apply L4. exact N.
+      assert (OKu : ps_ok w utd s (load_user_tags (w_db w) (w_uc w) utd s ps2)).
+      { split; [exact L1|]. split; [exact L2|]. rewrite L3. exact H1m. }
+      assert (Held : forall f, In f nf -> alookup f (ps_lookup (load_user_tags (w_db w) (w_uc w) utd s ps2)) <> None).
+      { intros f Hf N. apply (H2 f Hf). apply L4. exact N. }
+      destruct (str_eqb loc upsdb).
+      * inversion E. subst w' ps. clear E.
+        split; [exact I|]. split; [exact OKu|]. split; [apply same_but_refl|exact Held].
+      * (* persisted into the instance's own directory *)
+        destruct (save tick w s loc nf (load_user_tags (w_db w) (w_uc w) utd s ps2)) as [[w3 ps3] b] eqn:Es.
+        inversion E. subst w' ps. clear E.
+        assert (Hnew : forall f, In f nf ->
+                  alookup f (ps_lookup (load_user_tags (w_db w) (w_uc w) utd s ps2)) = None -> agree [] (w_db w) s f).
+        { intros f Hf N. exfalso. exact (Held f Hf N). }
+        subst utd.
+        destruct (save_ok tick s loc _ _ _ _ _ _ CS I OKu Hnew Es) as [I3 [OK3 [SB3 [K1 _]]]].
+        split; [exact I3|]. split; [exact OK3|]. split; [exact SB3|exact K1].
     + destruct (try_cache_false _ _ _ _ _ _ MT1 Nil1 T2) as [MT2 _].
       destruct (save tick w s loc (uniq (akeys (rebuild_lookup (w_db w) (w_uc w) utd s) ++ nf))
                   (mkPS (rebuild_lookup (w_db w) (w_uc w) utd s) (ps_modtimes ps2))) as [[w3 ps3] b] eqn:Es.
